@@ -130,6 +130,7 @@ func C14(ctx *core.Ctx) error {
 	for b := 18; b <= ctx.Pick(64, 80); b += 2 {
 		planSizes = append(planSizes, b)
 	}
+	planSizes = append(planSizes, 126, 128, 130) // primes around the 64 bit word boundary of math/big (classes 7, 0, 1)
 	perClass := ctx.Pick(72, 240) // keys per residue class: a defect that spoils a third of the keys of ONE class escapes with (2/3)^72 < 1e-12
 	if ctx.Thorough() {
 		toyPlans = []c14ToyPlan{
